@@ -33,12 +33,19 @@ void UncompressedFile::read(char * s, std::streamsize n) {
     std::unique_lock<std::mutex> lock(m_mutex);
 
     /* wait until there is sufficient data */
-    tellpChanged.wait(lock, [&] {
+    auto sufficientData = [&] {
         return
         m_abort ||
         (n + m_tellg <= m_tellp) ||
         (n + m_tellg > m_fileSize);
-    });
+    };
+    if (!sufficientData()) {
+        /* the writing side must not wait for free space before this position */
+        m_demand = n + m_tellg;
+        tellgChanged.notify_all();
+    }
+    tellpChanged.wait(lock, sufficientData);
+    m_demand = 0;
 
     /* handle read behind eof */
     if (n + m_tellg > m_fileSize) {
@@ -108,7 +115,8 @@ void UncompressedFile::write(const char * s, std::streamsize n) {
     tellgChanged.wait(lock, [&] {
         return
         m_abort ||
-        ((m_tellp - m_tellg) < m_bufferSize);
+        ((m_tellp - m_tellg) < m_bufferSize) ||
+        (m_tellp < m_demand);
     });
 
     /* write data */
@@ -201,7 +209,8 @@ void UncompressedFile::write(const std::shared_ptr<LogContainer> & logContainer)
     tellgChanged.wait(lock, [&] {
         return
         m_abort ||
-        ((m_tellp - m_tellg) < m_bufferSize);
+        ((m_tellp - m_tellg) < m_bufferSize) ||
+        (m_tellp < m_demand);
     });
 
     /* append logContainer */
